@@ -44,6 +44,7 @@ func main() {
 
 func genCases(g *fw.GenCtx) {
 	g.Emit("notset", ccase{})
+	g.Emit("timecalc", ccase{})
 	for k := 0; k < g.Pick(150, 6000); k++ {
 		g.Emit("trace", ccase{Seed: g.Rand.Int63(), N: 20})
 	}
@@ -392,6 +393,8 @@ func run(c fw.Case) fw.Outcome {
 		runACL(&oc, cc)
 	case "notset":
 		runNotSet(&oc)
+	case "timecalc":
+		runTimeCalc(&oc)
 	}
 	return oc
 }
